@@ -357,7 +357,8 @@ def run_property(pid, tier, replay=None):
             for _ in range(2):
                 p = subprocess.run([PY, '-m', 'kverif.run', pid, '--replay', path], cwd=ROOT,
                                    capture_output=True, text=True, timeout=900)
-                outs.append((p.returncode, [l for l in p.stdout.splitlines() if l.startswith('REPLAY')]))
+                # verdict lines only: observed values may contain object addresses
+                outs.append((p.returncode, [l for l in p.stdout.splitlines() if l.startswith('REPLAY reproduced=')]))
             if outs[0] != outs[1]:
                 print(f'FRAMEWORK ERROR: replay of {path} is not deterministic: {outs}', file=sys.stderr)
                 return 2
